@@ -207,7 +207,7 @@ LEVEL1 = {
 class Run(object):
     """one interpreter run with the interval-level hooks installed"""
 
-    def __init__(self, prog, env, std_variant="lt", extra_overrides=None):
+    def __init__(self, prog, env, std_variant="lt", extra_overrides=None, ctx=None):
         self.prog = prog
         self.env = env
         self.cells = []        # Bound::cmp cells evaluated: (cell_id, result, ok, ret_span)
@@ -217,7 +217,7 @@ class Run(object):
         ov.update(LEVEL1)
         if extra_overrides:
             ov.update(extra_overrides)
-        self.interp = Interp(prog, Policy(), overrides=ov)
+        self.interp = Interp(prog, Policy(), overrides=ov, ctx=ctx)
         self.interp.std_variant = std_variant
 
     def _cmp_hook(self, interp, args, info):
@@ -314,17 +314,19 @@ def ref_difference(a, b):
     return pieces
 
 
-def eval_row(prog, env, op, a, b, w, variant):
+def eval_row(prog, env, op, a, b, w, variant, prefix=()):
     """Interpret one operation on one abstract row; returns a dict describing the outcome and its
     comparison with the reference."""
-    run = Run(prog, env, variant)
+    from .interp import Ctx
+    cx = Ctx(prefix)
+    run = Run(prog, env, variant, ctx=cx)
     A, B = build_set(env, a), build_set(env, b)
     pa, pb = Ptr(Cell(A)), Ptr(Cell(B))
     key = {"intersect": "range::BoundSet::intersect", "difference": "range::BoundSet::difference",
            "allows_any": "range::BoundSet::allows_any", "allows_all": "range::BoundSet::allows_all"}[op]
     status, val = run.call(key, [pa, pb])
     it = run.interp
-    out = {"op": op, "key": row_key(a, b, w), "variant": variant, "status": status, "sig": path_sig(it),
+    out = {"op": op, "key": row_key(a, b, w), "variant": variant, "status": status, "sig": path_sig(it), "ctx": cx,
            "cells": run.cells, "inv_lu": run.inv_lu, "steps": it.steps,
            "example": "%s  vs  %s" % (example_text(a), example_text(b)), "problems": []}
     sp = it.ret_span.get(key)
@@ -475,7 +477,19 @@ def _worker(args):
     out = []
     for (a, b, w) in chunk:
         for v in variants:
-            out.append(eval_row(prog, env, op, a, b, w, v))
+            stack = [[]]
+            n = 0
+            while stack and n < 64:
+                prefix = stack.pop()
+                r = eval_row(prog, env, op, a, b, w, v, prefix)
+                n += 1
+                cx = r.pop("ctx")
+                if cx.decisions:
+                    r["key"] += " free-fields:" + "".join(str(d) for d in cx.decisions)
+                out.append(r)
+                for i in range(len(cx.decisions) - 1, len(prefix) - 1, -1):
+                    for alt in range(cx.arity[i] - 1, 0, -1):
+                        stack.append(cx.decisions[:i] + [alt])
     return out
 
 
